@@ -2,7 +2,7 @@
 """print a markdown table of the kept seeded changes (seeded/*/meta.json) and which check reported them"""
 import json, glob, os
 here = os.path.dirname(os.path.dirname(os.path.abspath(__file__)))
-print("| seeded change | breaks | what it needs to manifest | suite with change | reported by (replay keys) |")
+print("| seeded change (`-mK` breaking, `-hK` harmless refactoring) | property | what it needs to manifest | suite with change | outcome of the property's check on /repo HEAD + change (replay keys) |")
 print("|---|---|---|---|---|")
 for d in sorted(glob.glob(os.path.join(here, 'seeded', '*'))):
     m = json.load(open(os.path.join(d, 'meta.json')))
@@ -10,6 +10,9 @@ for d in sorted(glob.glob(os.path.join(here, 'seeded', '*'))):
     rep = []
     for k in c.get('checks', []):
         keys = [r.replace('.json', '').split('_', 1)[-1] for r in k['replays'] if r != 'no-failing-input-found'][:3]
-        rep.append(f"{k['check']}: " + ("**MISSED**" if not k['caught'] else f"{k['violation_lines']} VIOLATION ({', '.join(keys)})"))
+        if m.get('kind') == 'harmless':
+            rep.append(f"{k['check']}: " + ("silent (exit 0), as it must be" if k['exit'] == 0 else f"**FALSE ALARM** ({', '.join(keys)})"))
+        else:
+            rep.append(f"{k['check']}: " + ("**MISSED**" if not k['caught'] else f"{k['violation_lines']} VIOLATION ({', '.join(keys)})"))
     esc = lambda s: str(s).replace('|', '/').replace('\n', ' ')
-    print(f"| `{os.path.basename(d)}` {esc(m.get('summary',''))[:160]} | {m.get('property','')} | {esc(m.get('needs',''))[:200]} | {esc(c.get('tests_with_patch',''))[:40]} | {esc('; '.join(rep))} |")
+    print(f"| `{os.path.basename(d)}` {esc(m.get('summary',''))[:160]} | {m.get('property','')} | {esc(m.get('needs',''))[:200]} | {esc(c.get('tests_with_patch',''))[:22]} | {esc('; '.join(rep))} |")
